@@ -132,7 +132,7 @@ impl<'a> MintUnpacked<'a> {
         ensures match *self.fee_config { Some(c) => r matches Ok(rc) && *rc == c && c.wf(), None => r is Err }
     { unimplemented!() }
 }
-pub struct ClockData { pub epoch: u64 }
+pub struct ClockData { pub slot: u64, pub epoch_start_timestamp: i64, pub epoch: u64, pub leader_schedule_epoch: u64, pub unix_timestamp: i64 }
 pub uninterp spec fn current_epoch() -> u64;
 pub struct Clock {}
 impl Clock {
@@ -238,7 +238,7 @@ impl MemoryMappedTransferFeeConfigExtension {
 //@ end
 }
 pub struct TokenExtensions<'a> { pub transfer_fee_config: Option<&'a MemoryMappedTransferFeeConfigExtension> }
-pub struct ClockData { pub epoch: u64 }
+pub struct ClockData { pub slot: u64, pub epoch_start_timestamp: i64, pub epoch: u64, pub leader_schedule_epoch: u64, pub unix_timestamp: i64 }
 pub uninterp spec fn current_epoch() -> u64;
 pub struct Clock {}
 impl Clock {
